@@ -1,5 +1,5 @@
 """C02 -- features paint in file order; only covering features matter; operations compose (spec/Paint.tla)."""
-from lib import build, tlc, replay, report
+from lib import build, tlc, replay, report, gen
 
 
 def paint_run(c, tier):
@@ -21,8 +21,21 @@ def paint_run(c, tier):
     return beh, res, quick
 
 
+def subset_run(c, tier):
+    """Documents of the world-file grammar: the world made of the features that contain a point answers like the full world."""
+    exe = build.build("rel", ("replay",))["replay"]
+    b = gen.behaviours(c, tier, "paint")
+    return b, replay.replay(exe, b, shards=16, timeout_s=180)
+
+
 def run(tier):
     c = report.Check("C02", "model_checking", tier)
+    gb, gres = subset_run(c, tier)
+    # rows that no feature contains are C03's (the background); here: the containing subset and the tag of the last containing feature
+    gres.mismatches = [m for m in gres.mismatches if m.get("check") != "subset-background"]
+    c.add_replay(gres, "world-file grammar: sub-document of the containing features = full document, bit for bit; tag of the last containing feature")
+    c.coverage["grammar_documents"] = len(gb)
+    c.coverage["subset_checks"] = {k: v for k, v in gres.stats.get("by_check", {}).items() if k.startswith("subset")}
     beh, res, quick = paint_run(c, tier)
     # C02 looks at the covered probe (step 1); the outside probe (step 2) belongs to C03
     res.mismatches = [m for m in res.mismatches if m.get("step") != 2]
@@ -34,7 +47,11 @@ def run(tier):
                           "model assignments varying temperature / composition / grains operations one kind at a time, plus full and empty "
                           "assignments, lists of two models of a kind and tag strings); every kind of composition model a feature type offers (uniform, smooth, "
                           "tian water content, random) x 4 operations over a painted base: the labels it does not list are cleared by replace and kept "
-                          "otherwise; non-trivial = at least one feature covers the probe; distinct = distinct TLC states")
+                          "otherwise; non-trivial = at least one feature covers the probe; distinct = distinct TLC states; "
+                          "plus documents of the world-file grammar Gen.tla with up to three features of any type, geometry, depth surfaces and models, each built "
+                          "together with all its sub-documents: at every lattice point the features that contain it are those whose one-feature world reports a tag, "
+                          "and the sub-document of exactly those features must answer bit for bit like the full document (deleting any set of non-containing "
+                          "features changes nothing) with the tag string of the last of them")
     c.assumptions += ["feature stacks use uniform models (the operation algebra is what is checked); thermal expansion 0 so the background is exactly Tp",
                       "grains compared with 1e-12 absolute tolerance when a slab/fault covers the probe (they average orientations through quaternions), exactly otherwise",
                       "velocity asserted only when the last covering feature has a velocity model (the statement does not say velocity is left as it was)"]
